@@ -1630,4 +1630,58 @@ theorem noEnabled_delivered (c : Cfg α) (s : State α) (h : Inv c s) (hst : NoE
   have := (h.link i r d).1
   simpa [ho, hb] using this
 
+/-! ### bounded delay for a serviced batcher -/
+
+theorem rowStep_inv (m : Batcher.Mode) (dest : α → Nat) (rcv : Nat → List α) (ρ : Row α) (op : RowOp α)
+    (h : RowInv m rcv ρ) : RowInv m rcv (ρ.step m dest op) := by
+  cases op with
+  | enq y el => exact (push_inv m dest rcv ρ y el h).1
+  | flushAll => exact (flushAll_inv m rcv ρ h).1
+
+theorem runOps_inv (m : Batcher.Mode) (dest : α → Nat) (rcv : Nat → List α) :
+    ∀ (ops : List (RowOp α)) (ρ : Row α), RowInv m rcv ρ → RowInv m rcv (Row.runOps m dest ρ ops) := by
+  intro ops
+  induction ops with
+  | nil => intro ρ h; exact h
+  | cons op ops ih => intro ρ h; exact ih _ (rowStep_inv m dest rcv ρ op h)
+
+theorem rowStep_mono (m : Batcher.Mode) (dest : α → Nat) (ρ : Row α) (op : RowOp α) (d : Nat) :
+    (∃ e, (ρ.step m dest op).out d = ρ.out d ++ e) ∧ (∃ e, (ρ.step m dest op).sent d = ρ.sent d ++ e) := by
+  cases op with
+  | enq y el =>
+    by_cases hd : d = dest y
+    · subst hd
+      exact ⟨⟨(Batcher.enqueue m (ρ.buf (dest y)) y el).2, by simp [Row.step, Row.push]⟩,
+        ⟨[y], by simp [Row.step, Row.push]⟩⟩
+    · exact ⟨⟨[], by simp [Row.step, Row.push, hd]⟩, ⟨[], by simp [Row.step, Row.push, hd]⟩⟩
+  | flushAll => exact ⟨⟨_, rfl⟩, ⟨[], by simp [Row.step, Row.flushAll]⟩⟩
+
+theorem runOps_mono (m : Batcher.Mode) (dest : α → Nat) (d : Nat) :
+    ∀ (ops : List (RowOp α)) (ρ : Row α),
+    (∃ e, (Row.runOps m dest ρ ops).out d = ρ.out d ++ e) ∧ (∃ e, (Row.runOps m dest ρ ops).sent d = ρ.sent d ++ e) := by
+  intro ops
+  induction ops with
+  | nil => intro ρ; exact ⟨⟨[], by simp [Row.runOps]⟩, ⟨[], by simp [Row.runOps]⟩⟩
+  | cons op ops ih =>
+    intro ρ
+    obtain ⟨⟨e1, h1⟩, ⟨e2, h2⟩⟩ := rowStep_mono m dest ρ op d
+    obtain ⟨⟨e3, h3⟩, ⟨e4, h4⟩⟩ := ih (ρ.step m dest op)
+    exact ⟨⟨e1 ++ e3, by simp [Row.runOps, h3, h1]⟩, ⟨e2 ++ e4, by simp [Row.runOps, h4, h2]⟩⟩
+
+theorem runOps_append (m : Batcher.Mode) (dest : α → Nat) (ρ : Row α) (a b : List (RowOp α)) :
+    Row.runOps m dest ρ (a ++ b) = Row.runOps m dest (Row.runOps m dest ρ a) b := by
+  induction a generalizing ρ with
+  | nil => rfl
+  | cons op a ih => simp [Row.runOps, ih]
+
+/-- a servicing call leaves the batcher towards `d` empty (`Adaptive`) -/
+theorem services_empties (n : Nat) (dest : α → Nat) (ρ : Row α) (d : Nat) (op : RowOp α)
+    (hs : services dest d op = true) : (ρ.step (.adaptive n) dest op).buf d = [] := by
+  cases op with
+  | flushAll => exact Batcher.flush_fst _
+  | enq y el =>
+    simp only [services, Bool.and_eq_true, decide_eq_true_eq] at hs
+    obtain ⟨rfl, rfl⟩ := hs
+    simp [Row.step, Row.push, Batcher.enqueue, Batcher.flush_fst]
+
 end Noir.Net
